@@ -153,6 +153,15 @@ func numericKeyFloat(v any) (float64, bool) {
 		return float64(x), true
 	case uint32:
 		return float64(x), true
+	// the narrow integer types are numbers too (an int8(1) key never matched an int 1 key)
+	case int8:
+		return float64(x), true
+	case int16:
+		return float64(x), true
+	case uint8:
+		return float64(x), true
+	case uint16:
+		return float64(x), true
 	}
 	return 0, false
 }
